@@ -265,29 +265,12 @@ def check(P: Project, R: Report) -> None:
     out_alias = any(isinstance(n, (ast.If, ast.IfExp)) and "by_alias" in ast.unparse(n.test) and "__field_aliases__" in ast.unparse(n) for n in ast.walk(dump))
     R.ob("R3", "fallback emits the alias under by_alias", out_alias, f"{base.rel}:{dump.lineno}", "")
     # class-level caches of the fallback must be keyed by class identity: class *names* are not unique in this package
-    names = {}
-    for q, m in T.models.items():
-        names.setdefault(m.name, []).append(q)
-    dup = sorted(n for n, qs in names.items() if len(qs) > 1)
+    from .c09 import class_cache_keys
+
+    dup, keys = class_cache_keys(T, fbm)
     R.extra["duplicate_model_class_names"] = dup
-    for mname, fn in sorted(fbm.items()):
-        name_vars = {ast.unparse(s_.targets[0]) for s_ in walk_local(fn) if isinstance(s_, ast.Assign) and len(s_.targets) == 1 and ast.unparse(s_.value).endswith(".__name__")}
-        for n in walk_local(fn):
-            key = None
-            if isinstance(n, ast.Subscript) and "_cache__" in ast.unparse(n.value):
-                key = n.slice
-            elif isinstance(n, ast.Call) and isinstance(n.func, ast.Attribute) and n.func.attr in ("get", "setdefault", "pop") and "_cache__" in ast.unparse(n.func.value) and n.args:
-                key = n.args[0]
-            elif isinstance(n, ast.Compare) and len(n.ops) == 1 and isinstance(n.ops[0], (ast.In, ast.NotIn)) and "_cache__" in ast.unparse(n.comparators[0]):
-                key = n.left
-            if key is None:
-                continue
-            kt = ast.unparse(key)
-            kdefs = [s_ for s_ in walk_local(fn) if isinstance(s_, ast.Assign) and ast.unparse(s_.targets[0]) == kt]
-            full = ast.unparse(kdefs[-1].value) if kdefs else kt
-            uses_name = "__name__" in full or any(v in {x.id for x in ast.walk(ast.parse(full, mode="eval")) if isinstance(x, ast.Name)} for v in name_vars)
-            has_identity = "id(" in full
-            R.ob("R3", f"fallback {mname}: cache key `{kt}` identifies the class", not (uses_name and not has_identity and dup), f"{base.rel}:{n.lineno}",
-                 f"key `{full}` is built from the class name only; {len(dup)} model class names are defined twice ({', '.join(dup[:4])}…), so two different classes would share one cache entry (e.g. an alias map)")
+    for mname, kt, full, ok, lineno in keys:
+        R.ob("R3", f"fallback {mname}: cache key `{kt}` identifies the class", ok, f"{base.rel}:{lineno}",
+             f"key `{full}` is built from the class name only; {len(dup)} model class names are defined twice ({', '.join(dup[:4])}…), so two different classes would share one cache entry (e.g. an alias map)")
     nested = [c for c in walk_local(fbm.get("_serialize_value", dump)) if isinstance(c, ast.Call) and call_name(c).endswith(".model_dump")]
     R.ob("R3", "fallback passes by_alias down to nested models", bool(nested) and all(kwarg(c, "by_alias") is not None for c in nested), base.rel, "")
